@@ -22,7 +22,24 @@ class ConstProbes:
         self.aliases = []      # (name, c++ type expr) in dependency order, per byte type suffix
         self.probes = []
         self.conv = []         # (mutable alias, const alias, what)
+        self.derived = []      # Probe: expression yielding a *view*; its byte type must be const unless everything is mutable
         self.k = 0
+
+    WRAPPERS = [("plain", "C()"), ("init", "::sbepp::cursor_ops::init(C())"), ("dont_move", "::sbepp::cursor_ops::dont_move(C())"),
+                ("init_dont_move", "::sbepp::cursor_ops::init_dont_move(C())")]
+
+    def derive(self, kind, what, vm, vc, expr, cursor=False):
+        self.k += 1
+        self.derived.append(Probe(self.k, kind, what, vm, vc, expr, cursor))
+
+    def derive_member(self, mkind, vm, vc, name, tagpath, base):
+        """view-returning accessor `name` of a level: through every cursor wrapper, named and by tag, and without cursor"""
+        self.derive("derived-view:%s:random-access" % mkind, "%s.%s()" % (base, name), vm, vc, "V().%s()" % name)
+        self.derive("derived-view:%s:get_by_tag" % mkind, "get_by_tag<%s>(%s)" % (name, base), vm, vc, "::sbepp::get_by_tag<%s::%s>(V())" % (tagpath, name))
+        for wn, w in self.WRAPPERS:
+            self.derive("derived-view:%s:cursor-%s" % (mkind, wn), "%s.%s(%s(c))" % (base, name, wn), vm, vc, "V().%s(%s)" % (name, w), cursor=True)
+            self.derive("derived-view:%s:get_by_tag-cursor-%s" % (mkind, wn), "get_by_tag<%s>(%s, %s(c))" % (name, base, wn), vm, vc,
+                        "::sbepp::get_by_tag<%s::%s>(V(), %s)" % (tagpath, name, w), cursor=True)
 
     def alias(self, base, expr_m, expr_c):
         self.aliases.append((base + "_m", expr_m))
@@ -51,6 +68,8 @@ class ConstProbes:
                 self.add("set_by_tag-cursor", "set_by_tag<%s>(%s, v, c)" % (name, base), vm, vc,
                          "::sbepp::set_by_tag<%s::%s>(V(), %s, C())" % (tagpath, name, val), cursor=True)
         elif node.kind == "array":
+            if on_level:
+                self.derive_member("array", vm, vc, name, tagpath, base)
             am, ac = self.alias("A%d" % len(self.aliases), "typename std::decay<%s>::type" % get_m, "typename std::decay<%s>::type" % get_c)
             ev = "std::declval<typename %s::value_type>()" % am
             for what, expr in [("assign_string(cstr)", 'V().assign_string("x")'),
@@ -68,6 +87,8 @@ class ConstProbes:
                                ("raw()[0] =", "V().raw()[0] = std::declval<typename std::remove_cv<typename ::sbepp::byte_type_t<V>>::type>()")]:
                 self.add("array:" + what, "%s.%s %s" % (base, name, what), am, ac, expr)
         elif node.kind == "composite":
+            if on_level:
+                self.derive_member("composite", vm, vc, name, tagpath, base)
             cm, cc = self.alias("C%d" % len(self.aliases), "typename std::decay<%s>::type" % get_m, "typename std::decay<%s>::type" % get_c)
             ctp = self.n.type_tag(node.tname) if node.tname else "%s::%s" % (tagpath, name)
             for m in node.members:
@@ -83,6 +104,15 @@ class ConstProbes:
                                 "typename std::decay<decltype(std::declval<%s>().%s())>::type" % (vc, g.name))
             nv = "std::declval<typename %s::size_type>()" % gm
             gb = "%s.%s" % (base, g.name)
+            self.derive_member("group", vm, vc, g.name, tagpath, base)
+            for what, expr in [("[0]", "V()[0]"), ("*begin()", "*V().begin()"), ("front()", "V().front()"), ("back()", "V().back()")]:
+                if what in ("[0]", "back()") and (g.level.groups or g.level.data):
+                    continue      # groups whose entries have variable-length members are forward ranges
+                self.derive("derived-view:entry:random-access", gb + what, gm, gc, expr)
+            for what, expr in [("*cursor_range(c).begin()", "*V().cursor_range(C()).begin()"), ("*cursor_begin(c)", "*V().cursor_begin(C())"),
+                               ("*cursor_subrange(c,0).begin()", "*V().cursor_subrange(C(), typename V::size_type{}).begin()"),
+                               ("*cursor_subrange(c,0,0).begin()", "*V().cursor_subrange(C(), typename V::size_type{}, typename V::size_type{}).begin()")]:
+                self.derive("derived-view:entry:cursor-iteration", gb + "." + what, gm, gc, expr, cursor=True)
             self.add("group:resize", gb + ".resize(n)", gm, gc, "V().resize(%s)" % nv)
             self.add("group:clear", gb + ".clear()", gm, gc, "V().clear()")
             self.add("fill_group_header", "fill_group_header(%s, n)" % gb, gm, gc, "::sbepp::fill_group_header(V(), %s)" % nv)
@@ -99,6 +129,7 @@ class ConstProbes:
             cp = "std::declval<const typename %s::value_type*>()" % dm
             il = "std::declval<std::initializer_list<typename %s::value_type>>()" % dm
             db = "%s.%s" % (base, d.name)
+            self.derive_member("data", vm, vc, d.name, tagpath, base)
             for what, expr in [("push_back", "V().push_back(%s)" % ev), ("pop_back", "V().pop_back()"), ("clear", "V().clear()"),
                                ("insert(pos,v)", "V().insert(%s, %s)" % (it, ev)), ("insert(pos,cnt,v)", "V().insert(%s, %s, %s)" % (it, sz, ev)),
                                ("insert(pos,first,last)", "V().insert(%s, %s, %s)" % (it, cp, cp)), ("insert(pos,ilist)", "V().insert(%s, %s)" % (it, il)),
@@ -133,7 +164,20 @@ def stage1_source(schema, rmsgs, top_header):
     for p in cp.probes:
         out.append('template<class V_, class C_, class = void> struct P%d : std::false_type {};' % p.pid)
         out.append('template<class V_, class C_> struct P%d<V_, C_, ::sbepp::detail::void_t<decltype(%s)>> : std::true_type {};' % (p.pid, p.expr.replace("typename V::", "typename V_::").replace("byte_type_t<V>", "byte_type_t<V_>")))
+    for p in cp.derived:
+        e = p.expr.replace("typename V::", "typename V_::")
+        out.append('template<class V_, class C_, class = void> struct D%d { static constexpr int inv = 0, cb = -1; };' % p.pid)
+        out.append('template<class V_, class C_> struct D%d<V_, C_, ::sbepp::detail::void_t<decltype(%s)>> { static constexpr int inv = 1, '
+                   'cb = std::is_const< ::sbepp::byte_type_t<typename std::decay<decltype(%s)>::type>>::value; };' % (p.pid, e, e))
     out.append('int main()\n{')
+    for p in cp.derived:
+        if p.cursor:
+            combos = [("mut/mut", p.vm, "CUR_m"), ("const-view/mut-cursor", p.vc, "CUR_m"), ("mut-view/const-cursor", p.vm, "CUR_c"),
+                      ("const-view/const-cursor", p.vc, "CUR_c")]
+        else:
+            combos = [("mut", p.vm, "CUR_m"), ("const", p.vc, "CUR_m")]
+        for cname, v, c in combos:
+            out.append('  std::printf("D\\t%d\\t%s\\t%%d\\t%%d\\n", (int)D%d<%s, %s>::inv, (int)D%d<%s, %s>::cb);' % (p.pid, cname, p.pid, v, c, p.pid, v, c))
     for p in cp.probes:
         if p.cursor:
             combos = [("mut/mut", p.vm, "CUR_m"), ("const-view/mut-cursor", p.vc, "CUR_m"), ("mut-view/const-cursor", p.vm, "CUR_c"),
